@@ -8,7 +8,7 @@ U = ("C05", "C08", "C10", "C11", "C19", "C12")
 def apply(ctx, W):
     m = W.file("semantic/module.rs")
     fn_into_verus(ctx, m, "Module::uses", ret="r", tags=("C11",), ensures=["r@ == self.ast.uses@"])
-    fn, u = fn_into_verus(ctx, m, "Module::scope", ret="r", tags=("C11", "C04", "C05", "C19"), ensures=[("r@ == module_scope(self)", ("C11", "C19"), "scope-order")])
+    fn, u = fn_into_verus(ctx, m, "Module::scope", ret="r", tags=("C11", "C04", "C05", "C19"), ensures=[("r@ == module_scope(self)", ("C11", "C19", "C04", "C05", "C08"), "scope-order")])
     # R-std: once(A).chain(B.iter().cloned()).collect()
     coll = m.method_calls(fn, "collect")
     ch = m.method_calls(fn, "chain")
@@ -19,6 +19,11 @@ def apply(ctx, W):
     it = [c for c in m.children.get(cl[0]["id"], []) if c["kind"] == "method_call" and c["method"] == "iter"]
     if len(it) != 1:
         raise rules.WeaveError("Module::scope: chain argument is not B.iter().cloned()")
+    # the ORDER matters: `once(A)` must be the receiver of `.chain(..)` and `B.iter().cloned()` its argument, and the
+    # chain must be what is collected (a swapped chain is a different function and must not be rewritten into this one)
+    if tuple(ch[0]["receiver_span"]) != tuple(on[0]["span"]) or tuple(ch[0]["args"][0]["span"]) != tuple(cl[0]["span"]) \
+            or tuple(coll[0]["receiver_span"]) != tuple(ch[0]["span"]):
+        raise rules.WeaveError("Module::scope: not of the form once(A).chain(B.iter().cloned()).collect() (operands in another order)")
     a_txt = " ".join(m.text(on[0]["args"][0]["span"]).split())
     b_txt = " ".join(m.text(it[0]["receiver_span"]).split())
     m.replace(coll[0]["span"][0], coll[0]["span"][1], "crate::verif_prelude::v_once_chain_cloned_paths(%s, %s)" % (a_txt, b_txt), "W9-R-std-once-chain-cloned")
